@@ -81,6 +81,27 @@ pub fn exec(line: &str) -> String {
         },
         ["display", a] => hex(shape!(a).to_string().as_bytes()),
         ["echo", a] => sexp(&shape!(a)),
+        ["lex", h] => {
+            let (toks, diags) = json_shape::verif::lex(&text!(h));
+            let mut out = String::new();
+            for (k, s0, e) in toks {
+                out.push_str(&format!("{k}@{s0}..{e} "));
+            }
+            out.push('|');
+            for (m, s0, e) in diags {
+                out.push_str(&format!(" {}@{s0}..{e}", diag_kind(&m)));
+            }
+            out
+        }
+        ["cst", h] => {
+            let (tree, diags) = json_shape::verif::cst(&text!(h));
+            let mut out = tree;
+            out.push_str(" |");
+            for (m, s0, e) in diags {
+                out.push_str(&format!(" {}@{s0}..{e}", diag_kind(&m)));
+            }
+            out
+        }
         ["allocs", family, n] => allocs_family(family, n.parse().unwrap_or(1)),
         ["ticks_subset", a, c] => {
             let (a, c) = (shape!(a), shape!(c));
@@ -258,6 +279,27 @@ fn p_c08(d: &str, e: &str) -> String {
         return "violated: array structure".into();
     }
     format!("ok {} {}", sexp(&s1), sexp(&s2))
+}
+
+/// diagnostics are compared by a small kind enum, not by message text
+fn diag_kind(m: &str) -> &'static str {
+    if m.starts_with("invalid token") {
+        "invalid-token"
+    } else if m.starts_with("unterminated string") {
+        "unterminated"
+    } else if m.starts_with("invalid unicode escape") {
+        "bad-unicode-escape"
+    } else if m.starts_with("invalid escape") {
+        "bad-escape"
+    } else if m.starts_with("string contains invalid character") {
+        "bad-char"
+    } else if m.starts_with("bracket nesting") {
+        "too-deep"
+    } else if m.starts_with("invalid syntax") {
+        "syntax"
+    } else {
+        "other"
+    }
 }
 
 fn nested(depth: usize) -> String {
